@@ -246,6 +246,22 @@ def run_case(case):
                         continue
                 except Exception:
                     pass
+            if label == "from_x":
+                # "to floating-point accuracy scaled by the local conditioning of the map": where the item's Jacobian has a condition
+                # number beyond 1e9 (a linear layer whose diagonal the `extreme` policy spread over e^-15 ... e^15) the inverse
+                # amplifies the rounding of y by that factor, the value handed to the next part's inverse is off by thousands and
+                # an exp / tan there overflows - the overflow is the amplified rounding error, not a wrong inverse
+                try:
+                    for k_ in bad.nonzero().reshape(-1).tolist():
+                        J_, _, _ = jm.item_jacobian(lambda z, c: model(z, c), x[k_], ctx[k_] if ctx is not None else None)
+                        sv_ = torch.linalg.svdvals(J_)
+                        if float(sv_.max()) > 1e9 * float(sv_.min()):
+                            bad[k_] = False
+                            r.count("skipped_illconditioned_items")
+                except Exception:
+                    pass
+                if not bad.any():
+                    continue
             k = int(bad.nonzero()[0])
             emit(r, "nonfinite", "%s inverse returns non-finite numbers" % fam, cubic_nu, policy=pol, world=world,
                  cfg=cfg, y=yy[k].reshape(-1)[:8], direction=label)
